@@ -318,7 +318,17 @@ def run_case(c: Dict[str, Any], dry: bool = False) -> Dict[str, Any]:
         if advp.sock is not None and not advp.closed and not c['adv'].get('slow_reader'):
             advp.do_close()
     w.at_quiescence = [open_canary2]
+    if adv.get('reaped'):
+        # the adversary goes silent for longer than --timeout: the idle sweep ends it (and the canary's finished keep-alive
+        # connection); the connection accepted afterwards must be served as usual
+        w.reaper_period = 20
+
+        def idle_jump(world: K.World) -> None:
+            K.CLOCK.offset += 3600.0
+        w.at_quiescence = [idle_jump, open_canary2]
     w.run_local()
+    if adv.get('reaped'):
+        K.CLOCK.offset = 0.0
     return {'world': w, 'parts': parts, 'state': state}
 
 
@@ -336,7 +346,7 @@ def evaluate(c: Dict[str, Any]) -> Tuple[List[Any], Dict[str, Any]]:
     st_ = r['state']
     adv = c['adv']
     f = c.get('fault') or {}
-    feat = {'canary': c['canary'], 'adv': adv['kind'] if adv['kind'] == 'bytes' else adv['role'] + ('+stuck-origin' if adv.get('stuck_origin') else ''),
+    feat = {'canary': c['canary'], 'adv': (adv['kind'] if adv['kind'] == 'bytes' else adv['role'] + ('+stuck-origin' if adv.get('stuck_origin') else '')) + ('+reaped' if adv.get('reaped') else ''),
             'fault': f.get('type', 'plugin' if adv.get('explode') else 'none'),
             'what': f.get('errno') or f.get('what') or adv.get('explode')}
     info = {'fired': st_['fired'], 'inflight': st_['canary_inflight_at_fault'] or adv['kind'] == 'bytes' or bool(adv.get('explode')),
@@ -356,6 +366,10 @@ def evaluate(c: Dict[str, Any]) -> Tuple[List[Any], Dict[str, Any]]:
             if who == 'canary2' and 'canary2' not in parts:
                 out.append(('subsequent-connection-never-served', feat, None, None))
                 continue
+            if adv.get('reaped') and who == 'canary':
+                # the clock jump that reaps the silent adversary also makes the canary's own finished keep-alive connection idle
+                # for an hour: that it is closed too is the canary's own doing, not the adversary's
+                got = dict(got, client_eof=want.get('client_eof'))
             if got != want:
                 diff = [k_ for k_ in want if got.get(k_) != want[k_]]
                 out.append(('%s-transcript-differs-from-running-alone' % ('concurrent' if who == 'canary' else 'subsequent'),
@@ -456,6 +470,10 @@ def run_shard(spec: Dict[str, Any], seed: int, acc: Any) -> None:
                     for k_ in range(0, nacts, 2):
                         for pf in ('origin_close', 'origin_reset', 'client_shut'):
                             cases.append(dict(slow, fault={'type': 'peer', 'k': k_, 'what': pf}))
+                # the adversary falls silent (after its exchange, or - as bytes - in the middle of a request) and is reaped
+                cases.append(dict(base, adv={'kind': 'conv', 'role': spec['adv_role'], 'reaped': True}))
+                cases.append(dict(base, adv={'kind': 'bytes', 'role': spec['adv_role'], 'data': b'GET http://adv.test/half HTTP/1.1\r\nHost: adv', 'cuts': [],
+                                             'finish': None, 'reaped': True}))
                 if spec['adv_role'] in ('forward', 'reverse', 'tunnel'):
                     # the adversary uploads 1.5 MB to an origin that accepts and never reads
                     stuck = dict(base, adv={'kind': 'conv', 'role': spec['adv_role'], 'stuck_origin': True})
